@@ -96,7 +96,7 @@ def model_note(msg, out):
 def run_mc(work, pid, tier):
     """Exhaustive TLC runs on the implementation-shaped specification."""
     cfgs = MC[pid][0 if tier == 'quick' else 1]
-    budget = 20 if tier == 'quick' else 420
+    budget = 20 if tier == "quick" else 150
     states = trans = 0
     detail = []
     for c in cfgs:
@@ -149,11 +149,19 @@ def check(pid, tier):
             rs, st = tlcsched.generate(w, c, ntlc, 80, seed, first_id=base, tag='tlc:' + c)
             tlcruns += rs
             base += len(rs)
+        # ... and from the conformance configuration (one sender, client steps urgent): these are reproducible
+        # step by step, so the events the specification predicts are compared with what the real client did
+        confruns, st = tlcsched.generate(w, 'CONF_%s.cfg' % pid, ntlc, 80, seed + 1, first_id=base, tag='conf:CONF_%s.cfg' % pid)
+        tlcruns += confruns
         if tier == 'thorough':
             # the same behaviours positioned around the 255 -> 0 wrap of the real modulus
             pass
         res = tunnel_check.drive_and_judge(w, binary, bub + tlcruns, 'bubble', 'bub')
         allres = [res]
+        # conformance of the implementation-shaped specification: predicted vs. real observable events
+        ceq, ccmp, cdiff = tunnel_check.conformance(confruns, res)
+        for d in cdiff[:3]:
+            print('SPEC-DRIFT property=%s run=%d t=%d predicted=%s real=%s' % (pid, d['run'], d['t'], d['predicted'], d['real']))
         if real:
             allres.append(tunnel_check.drive_and_judge(w, binary, real, 'real', 'real'))
         rruns = []
@@ -198,10 +206,11 @@ def check(pid, tier):
                         'TunObs observers; distinct = distinct step sequences with more than two steps',
                    model_checking=mcdetail, spec_x_observer_states=simstates, trace_events=nev,
                    tlc_generated_behaviours=len(tlcruns), random_walk_schedules=len(bub), real_time_schedules=len(real),
-                   bubble_stuck_runs=nstuck, model_notes=list(MODEL_NOTES), known_findings={t: len(b) for t, b in kf.items()}, exhaustive=False)
+                   bubble_stuck_runs=nstuck, conformance=dict(behaviours_compared=ccmp, real_client_matched_specification=ceq, predicted_events_compared=tunnel_check.CONF_STATS.get('events', 0), compared_on_a_prefix_only=tunnel_check.CONF_STATS.get('partial', 0), first_differences=cdiff), model_notes=list(MODEL_NOTES), known_findings={t: len(b) for t, b in kf.items()}, exhaustive=False)
         vlib.write_evidence(pid, tier, 'model_checking', cov, ASSUME[pid], time.time() - t0, len(viol))
-        print('%s %s: %d schedules on the real client (%d TLC-generated), %d trace events, model: %d states; %s' % (
-            pid, tier, len(allruns), len(tlcruns), nev, states + simstates, 'VIOLATIONS' if viol else 'held'))
+        print('%s %s: %d schedules on the real client (%d TLC-generated), %d trace events, model: %d states; '
+              'specification conformance %d/%d behaviours; %s' % (
+                  pid, tier, len(allruns), len(tlcruns), nev, states + simstates, ceq, ccmp, 'VIOLATIONS' if viol else 'held'))
         return rc
     finally:
         w.close()
